@@ -14,6 +14,7 @@ package main
 //	    requested extras labels no edge out of that node
 //	P4  every node is reachable from the root node along edges
 //	P5  node 0 is the requested root version
+//	ALL P1..P5 in this order, first failure (used by the corpus)
 //	ES  every edge v -> w is labelled by a requirement that v places on w's package
 //	    (edge soundness; diagnostic, stronger than the property's text)
 //
@@ -344,6 +345,13 @@ func (c *caseData) verdict(oracle string) string {
 		return c.p5()
 	case "ES":
 		return c.es()
+	case "ALL":
+		for _, o := range oracles {
+			if d := c.verdict(o); d != "" {
+				return d
+			}
+		}
+		return ""
 	}
 	return "unknown oracle " + oracle
 }
